@@ -34,6 +34,7 @@ def spec(names, with_other, tag=False):
 class Case(object):
     def __init__(self, k, m, s, with_other):
         self.k, self.m, self.s, self.with_other = k, m, s, with_other
+        self.app = 'vapp'          # the label of the app that is handed over (tools/vlib/c10_worker.py also uses `lapp`)
         self.fnames = ['f%d' % i for i in range(1, k + 1)]
         self.gnames = ['g%d' % j for j in range(1, m)]
         # evolutions: one per f, one per g that the marked prefix already covers, then the hand-over
@@ -43,20 +44,20 @@ class Case(object):
         from django.db import migrations, models
         init_fields = [('id', models.AutoField(primary_key=True, serialize=False, auto_created=True, verbose_name='ID'))] + \
             [(n, models.IntegerField(null=True)) for n in ['base'] + self.fnames]
-        ops = [migrations.CreateModel(name='Alpha', fields=init_fields, options={'db_table': 'vapp_alpha'})]
+        ops = [migrations.CreateModel(name='Alpha', fields=init_fields, options={'db_table': '%s_alpha' % self.app})]
         if getattr(self, 'tag', False):
             ops.append(migrations.CreateModel(name='Tag', fields=[
                 ('id', models.AutoField(primary_key=True, serialize=False, auto_created=True, verbose_name='ID')),
                 ('t', models.IntegerField(null=True))], options={'db_table': 'vapp_tag'}))
         Initial = type('Migration', (migrations.Migration,), {'initial': True, 'operations': ops})
-        out = [Initial('0001_initial', 'vapp')]
+        out = [Initial('0001_initial', self.app)]
         prev = '0001_initial'
         for j, g in enumerate(self.gnames):
             name = '%04d_add_%s' % (j + 2, g)
             M = type('Migration', (migrations.Migration,), {
-                'dependencies': [('vapp', prev)],
+                'dependencies': [(self.app, prev)],
                 'operations': [migrations.AddField(model_name='Alpha', name=g, field=models.IntegerField(null=True))]})
-            out.append(M(name, 'vapp'))
+            out.append(M(name, self.app))
             prev = name
         return out
 
@@ -469,11 +470,16 @@ def fresh_migration_app_cases(ctx):
             ctx.fail(None, '%s fails: %s' % (bad[0]['what'], bad[0]['error']), rep)
             continue
         names = r['expected_vapp_rows']
+        app = r.get('app', 'vapp')
+        rep['app'] = app
+        if r.get('stray_labels'):
+            ctx.fail(None, 'after the hand-over of %s django_migrations has rows for labels that are no app of the '
+                     'project: %r' % (app, r['stray_labels']), rep)
         if sorted(r['vapp_rows']) != sorted(names):
             ctx.fail(None, 'after the hand-over next to a fresh migration-managed app django_migrations has %r for the '
                      'app, expected each of %r once' % (r['vapp_rows'], names), rep)
-        executed = [x for x in r['runs'][1]['applying_migration'] if x.startswith("('vapp'")]
-        want = ["('vapp', '%s')" % n for n in names[s_:]]
+        executed = [x for x in r['runs'][1]['applying_migration'] if x.startswith("('%s'" % app)]
+        want = ["('%s', '%s')" % (app, n) for n in names[s_:]]
         if executed != want:
             ctx.fail(None, 'the hand-over executed %r, expected exactly the migrations after the covered prefix, in '
                      'order: %r' % (executed, want), rep)
